@@ -17,20 +17,6 @@
 ;@ghost now Int
 ;@ghost held (Array Int Bool)
 
-; sequence indexing through bridging functions (z3 rewrites seq.nth, which therefore cannot be a trigger)
-;@chunk nthInt nth_Int
-(declare-fun nth_Int ((Seq Int) Int) Int)
-(assert (forall ((s (Seq Int)) (i Int)) (! (= (nth_Int s i) (seq.nth s i)) :pattern ((nth_Int s i)))))
-;@chunk nthString nth_String
-(declare-fun nth_String ((Seq String) Int) String)
-(assert (forall ((s (Seq String)) (i Int)) (! (= (nth_String s i) (seq.nth s i)) :pattern ((nth_String s i)))))
-;@chunk nthAny nth_Any
-(declare-fun nth_Any ((Seq Any) Int) Any)
-(assert (forall ((s (Seq Any)) (i Int)) (! (= (nth_Any s i) (seq.nth s i)) :pattern ((nth_Any s i)))))
-;@chunk nthKV nth_D_KeyValue
-(declare-fun nth_D_KeyValue ((Seq D_KeyValue) Int) D_KeyValue)
-(assert (forall ((s (Seq D_KeyValue)) (i Int)) (! (= (nth_D_KeyValue s i) (seq.nth s i)) :pattern ((nth_D_KeyValue s i)))))
-
 ;@chunk lastIndexOf lastIndexOf
 (declare-fun lastIndexOf (String String) Int)
 (assert (forall ((s String) (t String)) (! (and
@@ -63,22 +49,24 @@
 (assert (forall ((s String)) (! (and (= (lower (lower s)) (lower s)) (= (str.len (lower s)) (str.len s))) :pattern ((lower s)))))
 
 ;@chunk split split
-(define-fun-rec split ((s String) (sep String)) (Seq String)
+(declare-fun split (String String) Sq_String)
+(assert (forall ((s String) (sep String)) (! (= (split s sep)
   (ite (and (str.contains s sep) (> (str.len sep) 0))
-       (seq.++ (seq.unit (str.substr s 0 (str.indexof s sep 0)))
+       (sq_app_String (sq_unit_String (str.substr s 0 (str.indexof s sep 0)))
                (split (str.substr s (+ (str.indexof s sep 0) (str.len sep)) (str.len s)) sep))
-       (seq.unit s)))
-(assert (forall ((s String) (sep String)) (! (>= (seq.len (split s sep)) 1) :pattern ((split s sep)))))
+       (sq_unit_String s))) :pattern ((split s sep)))))
+(assert (forall ((s String) (sep String)) (! (>= (sq_len_String (split s sep)) 1) :pattern ((split s sep)))))
 
 ;@chunk fields fields
-(declare-fun fields (String) (Seq String))
-(assert (forall ((s String)) (! (>= (seq.len (fields s)) 0) :pattern ((fields s)))))
+(declare-fun fields (String) Sq_String)
+(assert (forall ((s String)) (! (>= (sq_len_String (fields s)) 0) :pattern ((fields s)))))
 
 ;@chunk join join
-(define-fun-rec join ((xs (Seq String)) (sep String)) String
-  (ite (<= (seq.len xs) 0) ""
-  (ite (= (seq.len xs) 1) (seq.nth xs 0)
-       (str.++ (seq.nth xs 0) sep (join (seq.extract xs 1 (- (seq.len xs) 1)) sep)))))
+(declare-fun join (Sq_String String) String)
+(assert (forall ((xs Sq_String) (sep String)) (! (= (join xs sep)
+  (ite (<= (sq_len_String xs) 0) ""
+  (ite (= (sq_len_String xs) 1) (sq_nth_String xs 0)
+       (str.++ (sq_nth_String xs 0) sep (join (sq_ext_String xs 1 (- (sq_len_String xs) 1)) sep))))) :pattern ((join xs sep)))))
 
 ;@chunk atoi atoiOk atoiVal
 (declare-fun atoiOk (String) Bool)
@@ -138,16 +126,18 @@
 
 ;@chunk seqsub seqSub strIn
 ; membership in a string sequence (front-peeling definition)
-(define-fun-rec strIn ((s String) (a (Seq String))) Bool
-  (ite (<= (seq.len a) 0) false
-       (or (= (seq.nth a 0) s) (strIn s (seq.extract a 1 (- (seq.len a) 1))))))
+(declare-fun strIn (String Sq_String) Bool)
+(assert (forall ((s String) (a Sq_String)) (! (= (strIn s a)
+  (ite (<= (sq_len_String a) 0) false
+       (or (= (sq_nth_String a 0) s) (strIn s (sq_ext_String a 1 (- (sq_len_String a) 1)))))) :pattern ((strIn s a)))))
 ; subsequence of a whose elements do not occur in b (defined by peeling the last element)
-(define-fun-rec seqSub ((a (Seq String)) (b (Seq String))) (Seq String)
-  (ite (<= (seq.len a) 0) (as seq.empty (Seq String))
-       (seq.++ (seqSub (seq.extract a 0 (- (seq.len a) 1)) b)
-               (ite (strIn (seq.nth a (- (seq.len a) 1)) b)
-                    (as seq.empty (Seq String))
-                    (seq.unit (seq.nth a (- (seq.len a) 1)))))))
+(declare-fun seqSub (Sq_String Sq_String) Sq_String)
+(assert (forall ((a Sq_String) (b Sq_String)) (! (= (seqSub a b)
+  (ite (<= (sq_len_String a) 0) sq_empty_String
+       (sq_app_String (seqSub (sq_ext_String a 0 (- (sq_len_String a) 1)) b)
+               (ite (strIn (sq_nth_String a (- (sq_len_String a) 1)) b)
+                    sq_empty_String
+                    (sq_unit_String (sq_nth_String a (- (sq_len_String a) 1))))))) :pattern ((seqSub a b)))))
 ;@ghost nHost (Seq String)
 ;@ghost nNew (Seq (Seq String))
 ;@ghost nRemoved (Seq (Seq String))
@@ -155,10 +145,11 @@
 ;@chunk hostport hostPortOf mapHostPort
 (define-fun hostPortOf ((ip String) (port String)) String
   (ite (str.contains ip ":") (str.++ "[" ip "]:" port) (str.++ ip ":" port)))
-(define-fun-rec mapHostPort ((ips (Seq String)) (port String)) (Seq String)
-  (ite (<= (seq.len ips) 0) (as seq.empty (Seq String))
-       (seq.++ (mapHostPort (seq.extract ips 0 (- (seq.len ips) 1)) port)
-               (seq.unit (hostPortOf (seq.nth ips (- (seq.len ips) 1)) port)))))
+(declare-fun mapHostPort (Sq_String String) Sq_String)
+(assert (forall ((ips Sq_String) (port String)) (! (= (mapHostPort ips port)
+  (ite (<= (sq_len_String ips) 0) sq_empty_String
+       (sq_app_String (mapHostPort (sq_ext_String ips 0 (- (sq_len_String ips) 1)) port)
+               (sq_unit_String (hostPortOf (sq_nth_String ips (- (sq_len_String ips) 1)) port))))) :pattern ((mapHostPort ips port)))))
 ;@ghost rrAdds (Seq String)
 ;@ghost rrRemoves (Seq String)
 
@@ -183,14 +174,14 @@
 (define-fun isHdr ((H_Header_name (Array Int String)) (h Int) (n String)) Bool
   (sameHdrName (select H_Header_name h) n))
 ; index of the first header named n in the list hs, or -1 (definitional axiom: the minimum exists)
-(declare-fun firstIdxU ((Array Int String) (Seq Int) String) Int)
-(define-fun firstIdx ((H_Header_name (Array Int String)) (hs (Seq Int)) (n String)) Int (firstIdxU H_Header_name hs n))
-(assert (forall ((H (Array Int String)) (hs (Seq Int)) (n String)) (!
-  (and (>= (firstIdxU H hs n) (- 1)) (< (firstIdxU H hs n) (seq.len hs))
-       (=> (>= (firstIdxU H hs n) 0) (sameHdrName (select H (nth_Int hs (firstIdxU H hs n))) n))
-       (forall ((j Int)) (! (=> (and (<= 0 j) (< j (ite (>= (firstIdxU H hs n) 0) (firstIdxU H hs n) (seq.len hs))))
-                                (not (sameHdrName (select H (nth_Int hs j)) n)))
-                            :pattern ((nth_Int hs j)))))
+(declare-fun firstIdxU ((Array Int String) Sq_Int String) Int)
+(define-fun firstIdx ((H_Header_name (Array Int String)) (hs Sq_Int) (n String)) Int (firstIdxU H_Header_name hs n))
+(assert (forall ((H (Array Int String)) (hs Sq_Int) (n String)) (!
+  (and (>= (firstIdxU H hs n) (- 1)) (< (firstIdxU H hs n) (sq_len_Int hs))
+       (=> (>= (firstIdxU H hs n) 0) (sameHdrName (select H (sq_nth_Int hs (firstIdxU H hs n))) n))
+       (forall ((j Int)) (! (=> (and (<= 0 j) (< j (ite (>= (firstIdxU H hs n) 0) (firstIdxU H hs n) (sq_len_Int hs))))
+                                (not (sameHdrName (select H (sq_nth_Int hs j)) n)))
+                            :pattern ((sq_nth_Int hs j)))))
   :pattern ((firstIdxU H hs n)))))
 
 ; distinct well-known header names never denote the same header (proved from the definition: lemma C17_disjoint)
@@ -214,17 +205,17 @@
 
 ;@chunk kv kvFirst kvFirstU kvHas kvGet
 ; index of the first parameter named k in an ordered parameter list, or -1 (definitional axiom)
-(declare-fun kvFirstU ((Seq D_KeyValue) String) Int)
-(define-fun kvFirst ((ps (Seq D_KeyValue)) (k String)) Int (kvFirstU ps k))
-(assert (forall ((ps (Seq D_KeyValue)) (k String)) (!
-  (and (>= (kvFirstU ps k) (- 1)) (< (kvFirstU ps k) (seq.len ps))
-       (=> (>= (kvFirstU ps k) 0) (= (KeyValue_Key (nth_D_KeyValue ps (kvFirstU ps k))) k))
-       (forall ((j Int)) (! (=> (and (<= 0 j) (< j (ite (>= (kvFirstU ps k) 0) (kvFirstU ps k) (seq.len ps))))
-                                (not (= (KeyValue_Key (nth_D_KeyValue ps j)) k)))
-                            :pattern ((nth_D_KeyValue ps j)))))
+(declare-fun kvFirstU (Sq_D_KeyValue String) Int)
+(define-fun kvFirst ((ps Sq_D_KeyValue) (k String)) Int (kvFirstU ps k))
+(assert (forall ((ps Sq_D_KeyValue) (k String)) (!
+  (and (>= (kvFirstU ps k) (- 1)) (< (kvFirstU ps k) (sq_len_D_KeyValue ps))
+       (=> (>= (kvFirstU ps k) 0) (= (KeyValue_Key (sq_nth_D_KeyValue ps (kvFirstU ps k))) k))
+       (forall ((j Int)) (! (=> (and (<= 0 j) (< j (ite (>= (kvFirstU ps k) 0) (kvFirstU ps k) (sq_len_D_KeyValue ps))))
+                                (not (= (KeyValue_Key (sq_nth_D_KeyValue ps j)) k)))
+                            :pattern ((sq_nth_D_KeyValue ps j)))))
   :pattern ((kvFirstU ps k)))))
-(define-fun kvHas ((ps (Seq D_KeyValue)) (k String)) Bool (>= (kvFirstU ps k) 0))
-(define-fun kvGet ((ps (Seq D_KeyValue)) (k String)) String (KeyValue_Value (nth_D_KeyValue ps (kvFirstU ps k))))
+(define-fun kvHas ((ps Sq_D_KeyValue) (k String)) Bool (>= (kvFirstU ps k) 0))
+(define-fun kvGet ((ps Sq_D_KeyValue) (k String)) String (KeyValue_Value (sq_nth_D_KeyValue ps (kvFirstU ps k))))
 
 ;@chunk hop hopHost hopPort viaPort
 ; response next hop of a Via entry p (RFC 3261 18.2.2 / RFC 3581): received over sent-by host; numeric rport
@@ -233,9 +224,9 @@
 (define-fun viaPort ((H_ViaParam_port (Array Int Int)) (H_ViaParam_Transport (Array Int String)) (p Int)) Int
   (ite (not (= (select H_ViaParam_port p) 0)) (select H_ViaParam_port p)
        (ite (= (select H_ViaParam_Transport p) "TLS") 5061 5060)))
-(define-fun hopHost ((H_ViaParam_Params (Array Int (Seq D_KeyValue))) (H_ViaParam_Host (Array Int String)) (p Int)) String
+(define-fun hopHost ((H_ViaParam_Params (Array Int Sq_D_KeyValue)) (H_ViaParam_Host (Array Int String)) (p Int)) String
   (ite (kvHas (select H_ViaParam_Params p) "received") (kvGet (select H_ViaParam_Params p) "received") (select H_ViaParam_Host p)))
-(define-fun hopPort ((H_ViaParam_Params (Array Int (Seq D_KeyValue))) (H_ViaParam_port (Array Int Int)) (H_ViaParam_Transport (Array Int String)) (p Int)) Int
+(define-fun hopPort ((H_ViaParam_Params (Array Int Sq_D_KeyValue)) (H_ViaParam_port (Array Int Int)) (H_ViaParam_Transport (Array Int String)) (p Int)) Int
   (ite (and (kvHas (select H_ViaParam_Params p) "received") (kvHas (select H_ViaParam_Params p) "rport")
             (atoiOk (kvGet (select H_ViaParam_Params p) "rport")))
        (atoiVal (kvGet (select H_ViaParam_Params p) "rport"))
@@ -259,3 +250,38 @@
 ;@ghost stampPort (Seq Int)
 ;@ghost npiRS (Seq Bool)
 ;@ghost npRS (Seq Bool)
+
+;@chunk uuid uuidString lastSeg
+; textual form of a UUID value (8-4-4-4-12 lower-hex); only used as an opaque function of the drawn value
+(declare-fun uuidString (String) String)
+(define-fun lastSeg ((s String) (sep String)) String (sq_nth_String (split s sep) (- (sq_len_String (split s sep)) 1)))
+;@ghost uuidDraws (Seq String)
+;@ghost addvias (Seq Int)
+;@ghost addviaT (Seq Any)
+;@ghost addrrs (Seq Int)
+;@ghost addrrT (Seq Any)
+
+;@chunk rrpos rrPos
+; position at which a new Record-Route header is inserted: before the first Record-Route header, else at the
+; smaller of the positions of From and Max-Forwards (whichever exist), else at 0
+(define-fun rrPos ((H_Header_name (Array Int String)) (hs Sq_Int)) Int
+  (ite (>= (firstIdxU H_Header_name hs "Record-Route") 0) (firstIdxU H_Header_name hs "Record-Route")
+  (ite (and (>= (firstIdxU H_Header_name hs "From") 0) (>= (firstIdxU H_Header_name hs "Max-Forwards") 0))
+       (ite (< (firstIdxU H_Header_name hs "From") (firstIdxU H_Header_name hs "Max-Forwards")) (firstIdxU H_Header_name hs "From") (firstIdxU H_Header_name hs "Max-Forwards"))
+  (ite (>= (firstIdxU H_Header_name hs "From") 0) (firstIdxU H_Header_name hs "From")
+  (ite (>= (firstIdxU H_Header_name hs "Max-Forwards") 0) (firstIdxU H_Header_name hs "Max-Forwards") 0)))))
+
+;@chunk sipuri sipTransport sipPort
+(define-fun sipTransport ((H_SIPURI_Parameters (Array Int Sq_D_KeyValue)) (u Int)) String
+  (ite (kvHas (select H_SIPURI_Parameters u) "transport") (kvGet (select H_SIPURI_Parameters u) "transport") "udp"))
+(define-fun sipPort ((H_SIPURI_Parameters (Array Int Sq_D_KeyValue)) (H_SIPURI_port (Array Int Int)) (u Int)) Int
+  (ite (not (= (select H_SIPURI_port u) 0)) (select H_SIPURI_port u)
+       (ite (= (sipTransport H_SIPURI_Parameters u) "tls") 5061 5060)))
+
+;@chunk resolve knownHost knownIp
+; hosts the proxy can resolve without DNS: IP literals and entries of the configured host table
+(define-fun knownHost ((MD_String_String (Array Int (Array String Bool))) (tbl Int) (a String)) Bool
+  (or (not (= (str.len (parseIP a)) 0)) (select (select MD_String_String tbl) a)))
+(define-fun knownIp ((MV_String_String (Array Int (Array String String))) (tbl Int) (a String)) String
+  (ite (not (= (str.len (parseIP a)) 0)) a (select (select MV_String_String tbl) a)))
+;@ghost poproutes (Seq Int)
